@@ -11,3 +11,20 @@ pub use fp::fp128;
 pub use json::J;
 pub use report::{Report, Tier};
 pub use stats::Stats;
+
+/// Directory for scratch databases: /dev/shm when it is writable (file-backed SQLite and
+/// LMDB are much faster there), otherwise the system's temporary directory. Decided once.
+pub fn scratch_base() -> std::path::PathBuf {
+    static BASE: std::sync::OnceLock<std::path::PathBuf> = std::sync::OnceLock::new();
+    BASE.get_or_init(|| {
+        let shm = std::path::Path::new("/dev/shm");
+        let probe = shm.join(format!("verif-probe-{}", std::process::id()));
+        if shm.is_dir() && std::fs::create_dir(&probe).is_ok() {
+            let _ = std::fs::remove_dir(&probe);
+            shm.to_path_buf()
+        } else {
+            std::env::temp_dir()
+        }
+    })
+    .clone()
+}
